@@ -124,6 +124,14 @@ def bounded(ctx, b):
              '<p begin="1s" end="2s" style="base missing">one <span style="emph missing">two</span> <span style="gone emph base">three</span></p>'
              '<p begin="3s" end="4s" style="missing">four</p></div></body></tt>')
     sets.append(("several_style_references", DFXPReader().read(multi)))
+    # styles chained to one another, in both orders of their ids, where the style referred to has nothing a DFXP writer
+    # can express (bold only) or nothing at all: a <style> may name only a <style> that is written
+    for a_, b_ in (("hl", "strong"), ("strong", "hl"), ("a", "z"), ("z", "a")):
+        for props_ in ("tts:fontWeight=\"bold\"", "", "tts:fontStyle=\"italic\""):
+            chained = ('<tt xmlns="http://www.w3.org/ns/ttml" xmlns:tts="http://www.w3.org/ns/ttml#styling" xml:lang="en"><head><styling>'
+                       f'<style xml:id="{b_}" {props_}/><style xml:id="{a_}" style="{b_}" tts:color="red"/></styling></head><body><div>'
+                       f'<p begin="1s" end="2s" style="{a_}">one <span style="{b_}">two</span></p></div></body></tt>')
+            sets.append((f"chained_styles_{a_}_{b_}_{props_[4:13]}", DFXPReader().read(chained)))
     sets.append(("classes_through_the_api", CaptionSet({"en": CaptionList([
         Caption(0, 10 ** 6, [ST(True, {"classes": ["k", "nope"], "class": "k"}), T("x"), ST(False, {"classes": ["k", "nope"], "class": "k"})],
                 style={"classes": ["nope", "k"], "class": "nope"})])}, styles={"k": {"color": "red"}})))
